@@ -113,11 +113,19 @@ def massBalance (sys : SysM) : Option (List (String × FArr FV)) := do
 /-- `np.max(np.abs(a.values))` -/
 def maxAbs (a : FArr FV) : Option FV := npMax (a.values.toList.map FV.abs)
 
+/-- `_max_abs(values)` (D33 repair): the largest absolute entry among those that are numbers, 0 if none -/
+def maxAbsNoNan (a : FArr FV) : FV :=
+  pyMax ((a.values.toList.filter (fun v => !v.isNan)).map FV.abs) 0
+
+/-- the magnitude of one flow / stock as the tolerance sees it (`Gen.toleranceIgnoresNan`, regenerated) -/
+def magnitude (a : FArr FV) : Option FV :=
+  if Gen.toleranceIgnoresNan then some (maxAbsNoNan a) else maxAbs a
+
 /-- `_absolute_float_precision` (repaired form, D11): eps × max(largest |flow|, largest |stock|),
 with 0 for an empty collection -/
 def absoluteFloatPrecision (eps : FV) (sys : SysM) : Option FV := do
-  let fl ← sys.flows.mapM (fun f => maxAbs f.arr)
-  let st ← sys.stocks.mapM (fun s => maxAbs s.stock)
+  let fl ← sys.flows.mapM (fun f => magnitude f.arr)
+  let st ← sys.stocks.mapM (fun s => magnitude s.stock)
   -- without `default=0.0` Python's max raises on an empty list
   if !Gen.toleranceDefaultsZero && (fl.isEmpty || st.isEmpty) then none else
   let mf := pyMax fl 0
